@@ -98,6 +98,21 @@ def parseSencSamples (s : String) : Option (List SencSample) :=
       some { iv := ivb, subsamples := ss }
     | _ => none
 
+def parseEc3Subs (s : String) : Option (List Ec3Sub) :=
+  if s == "-" then some [] else
+  (s.splitOn ",").mapM fun r => do
+    match ← colonNats r with
+    | [a, b, c, d, e, f, g] =>
+      some { fscod := a.toNat, bsid := b.toNat, bsmod := c.toNat, acmod := d.toNat,
+             lfeon := e.toNat, num_dep_sub := f.toNat, chan_loc := g.toNat }
+    | _ => none
+
+def parseEc3Ext (s : String) : Option (Option (Nat × Nat)) :=
+  if s == "-" then some none else
+  match colonNats s with
+  | some [f, c] => some (some (f.toNat, c.toNat))
+  | _ => none
+
 def parsePayload : P Payload
   | "mfhd" :: ts => do
     let (v, ts) ← nat ts; let (f, ts) ← nat ts; let (s, ts) ← nat ts
@@ -152,6 +167,9 @@ def parsePayload : P Payload
     let (a, ts) ← nat ts; let (b, ts) ← nat ts; let (c, ts) ← nat ts; let (d, ts) ← nat ts
     let (e, ts) ← nat ts; let (x, ts) ← hex ts
     some (.emsg ⟨v, f, s, u, a, b, c, d, e, x⟩, ts)
+  | "dec3" :: ts => do
+    let (r, ts) ← nat ts; let (ss, ts) ← tok ts; let (e, ts) ← tok ts
+    some (.dec3 ⟨r, ← parseEc3Subs ss, ← parseEc3Ext e⟩, ts)
   | "opaque" :: ts => do
     let (d, ts) ← hex ts
     some (.opaque d, ts)
@@ -199,6 +217,12 @@ def showPayload : Payload → String
   | .emsg x => sp ["emsg", toString x.version, toString x.flags, toHex x.scheme_id_uri,
       toHex x.value, toString x.timescale, toString x.presentation_time_delta,
       toString x.presentation_time, toString x.event_duration, toString x.event_id, toHex x.data]
+  | .dec3 x => sp ["dec3", toString x.data_rate,
+      showList (fun s => joinWith ":" [toString s.fscod, toString s.bsid, toString s.bsmod,
+        toString s.acmod, toString s.lfeon, toString s.num_dep_sub, toString s.chan_loc]) x.substreams,
+      match x.ext with
+      | none => "-"
+      | some (f, c) => toString f ++ ":" ++ toString c]
   | .opaque d => sp ["opaque", toHex d]
 
 mutual
